@@ -45,6 +45,8 @@ def shapes(tier):
             if tier == "quick" and npoly == 3 and nm in ("e", "omega", "s", "v1"):
                 continue
             out.append({"what": "prior", "poly": npoly, "noff": noff, "param": nm})
+    # ten and more offsets (names whose numeric and textual orders differ): accepted priors keep the given order
+    out.append({"what": "prior", "poly": 1, "noff": 11, "param": "dv0_10"})
     if tier == "thorough":
         # two parameters with symbolic validity at once
         for a, b in (("K", "e"), ("P", "dv0_1"), ("v0", "K"), ("omega", "v1")):
@@ -225,7 +227,7 @@ def _run_prior(shape, res, sink):
             site = "JokerPrior.__init__." + ("linear" if lin0 else "nonlinear")
             if accepted:
                 sink.check(path, "prior.accepted_only_if_valid", core.SB(valid), site=site, describe=desc)
-                order = prior.par_names == allnames
+                order = prior.par_names == allnames and [getattr(o, "name", None) for o in getattr(prior, "v0_offsets", [])] == offs
                 sink.check(path, "prior.par_names_order", core.SB(z3.BoolVal(bool(order))), site="JokerPrior.par_names", describe=desc, structural_claim=True)
             else:
                 sink.check(path, "prior.rejected_only_if_invalid", core.SB(z3.Not(valid)), site=site, describe=desc)
@@ -473,10 +475,11 @@ def replay(cand):
     for sc in scenarios:
         try:
             with pm.Model() as model:
+                given_offs = [xu.with_unit(pm.Normal("dv0_%d" % k, 0, 5), u.km / u.s) for k in range(1, noff + 1)]
                 base = tj.JokerPrior.default(P_min=2 * u.day, P_max=100 * u.day, sigma_K0=30 * u.km / u.s, sigma_v=[10 * u.km / u.s, 1 * u.km / u.s / u.day, 0.1 * u.km / u.s / u.day ** 2][:npoly] if npoly > 1 else 10 * u.km / u.s,
-                                             poly_trend=npoly, v0_offsets=[xu.with_unit(pm.Normal("dv0_%d" % k, 0, 5), u.km / u.s) for k in range(1, noff + 1)])
+                                             poly_trend=npoly, v0_offsets=list(given_offs))
             pars = dict(base.pars)
-            offs = list(base.v0_offsets)
+            offs = list(given_offs)          # the order in which the caller hands them over (dv0_1, dv0_2, ...)
             with pm.Model() as model2:
                 kind = sc["kind"]
                 if kind == "FixedCompanionMass" or (target in ("P", "e", "omega", "M0", "s") and kind == "Normal"):
@@ -505,8 +508,12 @@ def replay(cand):
             for o in base.v0_offsets:
                 pars.pop(o.name, None)
             try:
-                tj.JokerPrior(pars=pars, poly_trend=npoly, v0_offsets=offs, model=pm.Model())
+                pj = tj.JokerPrior(pars=pars, poly_trend=npoly, v0_offsets=offs, model=pm.Model())
                 accepted = True
+                want_off = [o.name for o in offs]
+                want_names = ["P", "e", "omega", "M0", "s", "K"] + ["v%d" % j for j in range(npoly)] + want_off
+                if [o.name for o in pj.v0_offsets] != want_off or list(pj.par_names) != want_names:
+                    bad.append("accepted prior does not keep the order nonlinear, linear, offsets-as-given: par_names=%s" % list(pj.par_names))
             except (ValueError, TypeError):
                 accepted = False
         except Exception as e:
